@@ -279,15 +279,34 @@ pub fn chain_strategy(max: usize) -> BoxedStrategy<E> {
 
 pub fn run(ctx: &Ctx) -> Report {
     let cases = ctx.tier.pick(32_000u32, 320_000u32);
-    let total = run_shards(16, |shard| {
+    let mut total = run_shards(16, |shard| {
         let mut st = Stats::new();
         let strat = prop_oneof![3 => chain_strategy(40), 1 => chain_strategy(300), 2 => (any::<bool>()).prop_flat_map(|f| gen::expr_over(resource_leaf(f), 6, 40, true))];
         run_prop(&mut st, ctx.seed, "C11", shard as u64, cases / 16, &strat, judge, case_json);
         st
     });
+    // patterns and destinations that a truncated fingerprint (32 bits of the std hasher, fed in any
+    // of the usual ways; byte sum; length) cannot tell apart: different requests never share
+    let mut st = Stats::new();
+    let mut pairs = fingerprint_twins("file", ".dat");
+    pairs.extend(fingerprint_twins("*/", ""));
+    for (a, b) in &pairs {
+        for t in [
+            E::or(E::T(Tst::Name(a.clone())), E::T(Tst::Name(b.clone()))),
+            E::or(E::T(Tst::IName(b.clone())), E::T(Tst::IName(a.clone()))),
+            E::and(E::or(E::T(Tst::Path(a.clone())), E::T(Tst::IPath(b.clone()))), E::or(E::T(Tst::Path(b.clone())), E::T(Tst::IPath(a.clone())))),
+            E::and(E::or(E::T(Tst::Name(a.clone())), E::T(Tst::Name(b.clone()))), E::A(Act::Print0)),
+            E::and(E::and(E::A(Act::FPrint(a.clone())), E::A(Act::FPrint(b.clone()))), E::or(E::T(Tst::IName(a.clone())), E::T(Tst::IName(b.clone())))),
+        ] {
+            let v = judge(&t);
+            st.record(&v, stable_hash(&t), true, || case_json(&t));
+        }
+    }
+    st.samples.truncate(2);
+    total.merge(st);
     Report {
         stats: total,
-        rule: "expressions with 0..300 matcher requests (-name/-iname/-path/-ipath over a pool with deliberate repeats, case-only twins, literal/pattern pairs) and printer requests (stdout and files x three terminators) in random first-occurrence order, in plain and framed mode. Oracle: scope analysis of the program read by the independent reader: every let* name bound once, every use resolves to an earlier let* binding, an enclosing lambda parameter or the runtime vocabulary; the generated references of the policy body, zipped in evaluation order with the tree's leaves, must resolve to that leaf's resource (matcher: (lambda (v) (fn? \"pattern\" v)) with fn chosen by glob/case and the decoded pattern; printer: port/terminator in plain mode, tag -> destination table in framed mode); identical requests share an identifier, different ones never do; plus a behavioural run on files matching one pattern each. Non-trivial: both resource kinds present and at least one repeated request. Distinct: by tree.".into(),
+        rule: "expressions with 0..300 matcher requests (-name/-iname/-path/-ipath over a pool with deliberate repeats, case-only twins, literal/pattern pairs) and printer requests (stdout and files x three terminators) in random first-occurrence order, in plain and framed mode. Oracle: scope analysis of the program read by the independent reader: every let* name bound once, every use resolves to an earlier let* binding, an enclosing lambda parameter or the runtime vocabulary; the generated references of the policy body, zipped in evaluation order with the tree's leaves, must resolve to that leaf's resource (matcher: (lambda (v) (fn? \"pattern\" v)) with fn chosen by glob/case and the decoded pattern; printer: port/terminator in plain mode, tag -> destination table in framed mode); identical requests share an identifier, different ones never do; plus a behavioural run on files matching one pattern each. Also pairs of patterns/destinations whose std-hasher values agree in the low 32 bits (birthday search at run time, six ways of feeding the hasher) or that weak fingerprints confuse. Non-trivial: both resource kinds present and at least one repeated request. Distinct: by tree.".into(),
         assumptions: crate::checks::c02::runtime_assumptions(),
         exhaustive: false,
     }
